@@ -360,6 +360,46 @@ Qed.
    a dictionary).  Then DumpModifiedAttributes + evaluation of the file on the configured population succeed and every
    object reads as it did before the restart - its own values on P and on the frame, its own original_attributes
    entries, its own version (whenever it lists anything; otherwise it is exactly the configured object). *)
+(* every population reached by such histories is the image of specs that satisfy the per-object premises *)
+Lemma ps_pop_history_specs fe cfg H :
+  NoDup (map ps_c_name cfg) -> (forall c, In c cfg -> ps_pcfg_ok fe c) ->
+  (forall c, In c cfg -> ps_hist_ok fe (ps_c_P c) (ps_c_o0 c) (ps_pop_proj (ps_c_name c) H)) ->
+  (forall c, In c cfg -> forall k x, In (k, x) (ps_orig_dict (ps_run fe (ps_c_o0 c) (ps_pop_proj (ps_c_name c) H))) ->
+     ps_listed_ok fe (ps_run fe (ps_c_o0 c) (ps_pop_proj (ps_c_name c) H)) k) ->
+  exists specs,
+    ps_pop_cur specs = ps_pop_run fe (ps_pop_cfg cfg) H /\ ps_pop_base specs = ps_pop_cfg cfg /\
+    map ps_s_name specs = map ps_c_name cfg /\ (forall s, In s specs -> ps_pspec_ok fe s) /\
+    (forall c, In c cfg -> exists s, In s specs /\ ps_s_name s = ps_c_name c /\ ps_s_P s = ps_c_P c /\ ps_s_o0 s = ps_c_o0 c /\
+       ps_pop_find (ps_c_name c) (ps_pop_run fe (ps_pop_cfg cfg) H) = Some (ps_s_cur s)).
+Proof.
+  intros Hnd Hok Hh Hvals. set (running := ps_pop_run fe (ps_pop_cfg cfg) H).
+  assert (map ps_p_name running = map ps_c_name cfg) as Hnames.
+  { unfold running. rewrite ps_pop_run_names. unfold ps_pop_cfg. rewrite map_map. reflexivity. }
+  destruct (ps_pop_as_specs cfg running Hnames) as (specs & Hc & Hb & Hnm & Hall & Hall2).
+  assert (forall c, In c cfg -> ps_pop_find (ps_c_name c) running = Some (ps_run fe (ps_c_o0 c) (ps_pop_proj (ps_c_name c) H))) as Hrun.
+  { intros c Hin. unfold running. apply ps_pop_run_proj. apply ps_pop_cfg_find; assumption. }
+  assert (NoDup (map ps_p_name running)) as Hndr by (rewrite Hnames; exact Hnd).
+  (* In (name, o) of a population with distinct names means find = Some o *)
+  assert (forall pop, NoDup (map ps_p_name pop) -> forall po, In po pop -> ps_pop_find (ps_p_name po) pop = Some (ps_p_obj po)) as Hfin.
+  { induction pop as [|p0 pop IHp]; intros Hndp po Hin; [contradiction|]. cbn in Hndp |- *. inversion Hndp; subst.
+    destruct Hin as [<-|Hin]; [rewrite ps_key_eqb_refl; reflexivity|].
+    rewrite ps_key_eqb_neq; [apply IHp; assumption|]. intros E. apply H2. rewrite <- E. apply in_map. exact Hin. }
+  assert (forall s, In s specs -> exists c, In c cfg /\ ps_s_name s = ps_c_name c /\ ps_s_P s = ps_c_P c /\ ps_s_o0 s = ps_c_o0 c /\
+            ps_s_cur s = ps_run fe (ps_c_o0 c) (ps_pop_proj (ps_c_name c) H)) as Hcur.
+  { intros s Hin. destruct (Hall s Hin) as (c & H1 & H2 & H3 & H4 & H5). exists c. repeat split; auto.
+    pose proof (Hfin running Hndr _ H5) as Hf. cbn in Hf. rewrite (Hrun c H1) in Hf. inversion Hf. reflexivity. }
+  exists specs. split; [exact Hc|]. split; [exact Hb|]. split; [exact Hnm|]. split.
+  - intros s Hin. destruct (Hcur s Hin) as (c & H1 & H2 & H3 & H4 & H5).
+    destruct (Hok c H1) as (K1 & K2 & K3 & K4 & K5). unfold ps_pspec_ok. rewrite H3, H4, H5.
+    split; [exact K1|]. split; [exact K2|]. split; [exact K3|]. split; [exact K4|]. split; [exact K5|]. split.
+    + apply (ps_reload_run fe (ps_c_P c) (ps_c_o0 c) K1 K2 K4); [apply ps_reload_inv_init; exact K5 | apply Hh; exact H1].
+    + apply Hvals. exact H1.
+  - intros c Hin. destruct (Hall2 c Hin) as (s & Hs & E1 & E2 & E3).
+    destruct (Hcur s Hs) as (c' & Hc' & F1 & F2 & F3 & F4).
+    assert (c' = c) as -> by (apply (ps_nodup_name_inj cfg Hnd); [exact Hc' | exact Hin | rewrite <- F1; exact E1]).
+    exists s. split; [exact Hs|]. split; [exact E1|]. split; [exact E2|]. split; [exact E3|]. rewrite F4. apply Hrun. exact Hin.
+Qed.
+
 Theorem ps_pop_history_reload fe now cfg H :
   NoDup (map ps_c_name cfg) -> (forall c, In c cfg -> ps_pcfg_ok fe c) ->
   (forall c, In c cfg -> ps_hist_ok fe (ps_c_P c) (ps_c_o0 c) (ps_pop_proj (ps_c_name c) H)) ->
@@ -378,34 +418,41 @@ Theorem ps_pop_history_reload fe now cfg H :
        (ps_orig_dict cur = [] -> ro = ps_c_o0 c)).
 Proof.
   intros Hnd Hok Hh running Hvals.
-  assert (map ps_p_name running = map ps_c_name cfg) as Hnames.
-  { unfold running. rewrite ps_pop_run_names. unfold ps_pop_cfg. rewrite map_map. reflexivity. }
-  destruct (ps_pop_as_specs cfg running Hnames) as (specs & Hc & Hb & Hnm & Hall & Hall2).
-  assert (forall c, In c cfg -> ps_pop_find (ps_c_name c) running = Some (ps_run fe (ps_c_o0 c) (ps_pop_proj (ps_c_name c) H))) as Hrun.
-  { intros c Hin. unfold running. apply ps_pop_run_proj. apply ps_pop_cfg_find; assumption. }
-  assert (NoDup (map ps_p_name running)) as Hndr by (rewrite Hnames; exact Hnd).
-  (* In (name, o) of a population with distinct names means find = Some o *)
-  assert (forall pop, NoDup (map ps_p_name pop) -> forall po, In po pop -> ps_pop_find (ps_p_name po) pop = Some (ps_p_obj po)) as Hfin.
-  { induction pop as [|p0 pop IHp]; intros Hndp po Hin; [contradiction|]. cbn in Hndp |- *. inversion Hndp; subst.
-    destruct Hin as [<-|Hin]; [rewrite ps_key_eqb_refl; reflexivity|].
-    rewrite ps_key_eqb_neq; [apply IHp; assumption|]. intros E. apply H2. rewrite <- E. apply in_map. exact Hin. }
-  assert (forall s, In s specs -> exists c, In c cfg /\ ps_s_name s = ps_c_name c /\ ps_s_P s = ps_c_P c /\ ps_s_o0 s = ps_c_o0 c /\
-            ps_s_cur s = ps_run fe (ps_c_o0 c) (ps_pop_proj (ps_c_name c) H)) as Hcur.
-  { intros s Hin. destruct (Hall s Hin) as (c & H1 & H2 & H3 & H4 & H5). exists c. repeat split; auto.
-    pose proof (Hfin running Hndr _ H5) as Hf. cbn in Hf. rewrite (Hrun c H1) in Hf. inversion Hf. reflexivity. }
-  destruct (ps_pop_reload fe now specs) as (blocks & r & Hd & Hr & Hn & Hconcl).
-  { rewrite Hnm. exact Hnd. }
-  { intros s Hin. destruct (Hcur s Hin) as (c & H1 & H2 & H3 & H4 & H5).
-    destruct (Hok c H1) as (K1 & K2 & K3 & K4 & K5). unfold ps_pspec_ok. rewrite H3, H4, H5.
-    split; [exact K1|]. split; [exact K2|]. split; [exact K3|]. split; [exact K4|]. split; [exact K5|]. split.
-    - apply (ps_reload_run fe (ps_c_P c) (ps_c_o0 c) K1 K2 K4); [apply ps_reload_inv_init; exact K5 | apply Hh; exact H1].
-    - apply Hvals. exact H1. }
-  exists blocks, r. rewrite Hc, Hb in *. split; [exact Hd|]. split; [exact Hr|]. split; [rewrite Hn; exact Hnm|].
-  intros c Hin. destruct (Hall2 c Hin) as (s & Hs & E1 & E2 & E3).
+  destruct (ps_pop_history_specs fe cfg H Hnd Hok Hh Hvals) as (specs & Hc & Hb & Hnm & Hsok & Hmap).
+  destruct (ps_pop_reload fe now specs) as (blocks & r & Hd & Hr & Hn & Hconcl); [rewrite Hnm; exact Hnd | exact Hsok |].
+  exists blocks, r. fold running in Hc. rewrite Hc, Hb in *. split; [exact Hd|]. split; [exact Hr|]. split; [rewrite Hn; exact Hnm|].
+  intros c Hin. destruct (Hmap c Hin) as (s & Hs & E1 & E2 & E3 & Hfc).
   destruct (Hconcl s Hs) as (ro & Hfr & C1 & C2 & C3 & C4 & C5).
-  destruct (Hcur s Hs) as (c' & Hc' & F1 & F2 & F3 & F4).
-  assert (c' = c) as -> by (apply (ps_nodup_name_inj cfg Hnd); [exact Hc' | exact Hin | rewrite <- F1; exact E1]).
-  exists (ps_s_cur s), ro. rewrite <- E1. split; [rewrite E1, F4; apply Hrun; exact Hin|]. split; [exact Hfr|].
+  exists (ps_s_cur s), ro. split; [exact Hfc|]. rewrite <- E1. split; [exact Hfr|].
+  rewrite <- E2, <- E3. repeat split; try assumption; try apply C3.
+Qed.
+
+(* the same histories followed by the whole stop/start cycle (state file + modified-attributes.conf): every object has
+   ITS OWN version back whether or not it lists modified attributes *)
+Theorem ps_pop_history_restart fe now cfg H :
+  NoDup (map ps_c_name cfg) -> (forall c, In c cfg -> ps_pcfg_ok fe c) ->
+  (forall c, In c cfg -> ps_hist_ok fe (ps_c_P c) (ps_c_o0 c) (ps_pop_proj (ps_c_name c) H)) ->
+  let running := ps_pop_run fe (ps_pop_cfg cfg) H in
+  (forall c, In c cfg -> forall k x, In (k, x) (ps_orig_dict (ps_run fe (ps_c_o0 c) (ps_pop_proj (ps_c_name c) H))) ->
+     ps_listed_ok fe (ps_run fe (ps_c_o0 c) (ps_pop_proj (ps_c_name c) H)) k) ->
+  exists r,
+    ps_pop_restart fe now running (ps_pop_cfg cfg) = Some (true, r) /\
+    map ps_p_name r = map ps_c_name cfg /\
+    (forall c, In c cfg -> exists cur ro,
+       ps_pop_find (ps_c_name c) running = Some cur /\ ps_pop_find (ps_c_name c) r = Some ro /\
+       (forall p, In p (ps_c_P c) -> ps_get_attr p ro = ps_get_attr p cur) /\
+       (forall q, (forall p, In p (ps_c_P c) -> ps_incomp p q) -> ps_get_attr q ro = ps_get_attr q cur) /\
+       (forall k x, In (k, x) (ps_orig_dict ro) <-> In (k, x) (ps_orig_dict cur)) /\
+       ps_m_version ro = ps_m_version cur /\
+       (ps_orig_dict cur = [] -> ro = ps_set_version (ps_m_version cur) (ps_c_o0 c))).
+Proof.
+  intros Hnd Hok Hh running Hvals.
+  destruct (ps_pop_history_specs fe cfg H Hnd Hok Hh Hvals) as (specs & Hc & Hb & Hnm & Hsok & Hmap).
+  destruct (ps_pop_restart_reload fe now specs) as (r & Hr & Hn & Hconcl); [rewrite Hnm; exact Hnd | exact Hsok |].
+  exists r. fold running in Hc. rewrite Hc, Hb in *. split; [exact Hr|]. split; [rewrite Hn; exact Hnm|].
+  intros c Hin. destruct (Hmap c Hin) as (s & Hs & E1 & E2 & E3 & Hfc).
+  destruct (Hconcl s Hs) as (ro & Hfr & C1 & C2 & C3 & C4 & C5).
+  exists (ps_s_cur s), ro. split; [exact Hfc|]. rewrite <- E1. split; [exact Hfr|].
   rewrite <- E2, <- E3. repeat split; try assumption; try apply C3.
 Qed.
 
